@@ -91,6 +91,15 @@ def boundary_values(rng, count):
     for e in range(-700 + off, 701, 13):
         for m in (1, 425):
             vals.append([str(m * 10 ** e), "1"] if e >= 0 else [str(m), str(10 ** -e)])
+    # every power of two up to 2^260 and of five up to 5^120 as denominator, under a 53-bit odd numerator (what a value that went through
+    # a float looks like) and under a numerator that makes the leading digits 8s and 9s: fast paths keyed on the width of a dyadic
+    # denominator (seed C08-i: exactly 2^125 overflows a u128 in the shift-and-mask path, and only for the digits 8 and 9)
+    for k in range(1, 261):
+        m = rng.randrange(2 ** 52, 2 ** 53) | 1
+        vals.append([str(m), str(2 ** k)])
+        vals.append([str((2 ** k * rng.choice([8, 9, 89, 98, 899]) // 10 ** len(str(rng.choice([8, 89, 899])))) | 1), str(2 ** k)])
+    for k in range(1, 121):
+        vals.append([str(rng.randrange(1, 10 ** 15) * 2 + 1), str(5 ** k)])
     vals += [["0", "1"], ["1", "1"], ["-1", "1"], ["1", "8"], ["100000000", "1"], ["12345675", "10"]]
     return vals
 
